@@ -95,6 +95,10 @@ class _DuckProxy:
         return getattr(self._inner, name)
 
 
+class _LockHang(Exception):
+    """the main thread could not get an instance lock within its deadline: some finished session never released it"""
+
+
 class _LockProxy:
     """acquire and release are yield points; a blocked acquire consumes the turn (stutter)"""
 
@@ -107,7 +111,10 @@ class _LockProxy:
         s = self._sched
         i = s.me()
         if i is None:
-            return self._inner.acquire(blocking, timeout)
+            # the main thread (setup, final reads): a lock that is never released would hang it for ever – bounded wait
+            if self._inner.acquire(True, 15):
+                return True
+            raise _LockHang()
         self._used.append(i)
         while True:
             s.park(i, f"L+{self._id}")
@@ -226,6 +233,17 @@ def _exec_stmt(conn_box: list, st: str) -> str | None:
     """returns the observable result of one statement: None (nothing), 'E', 'r…', 'm…'"""
     import snowflake.connector
     try:
+        if st == "N!":      # a connect whose bootstrap raises (a database name DuckDB cannot parse); the session goes on without it
+            snowflake.connector.connect(database="my-db", schema="s1")
+            return None
+        if st == "Nz":      # a connect that asks for its own time zone (a session-level setting of THAT session)
+            conn_box[0] = snowflake.connector.connect(database="db1", schema="s1", timezone="America/New_York")
+            return None
+        if st == "H":       # session-setting probe: how this session renders a TIMESTAMP_TZ (always UTC: hour 12)
+            cur = conn_box[0].cursor()
+            cur.execute("select extract(hour from '2020-06-01 12:00:00+00:00'::timestamptz) as c19probe")
+            h = cur.fetchall()[0][0]
+            return None if h == 12 else f"h{h}"
         if st == "Q":       # the session closes its connection; the others go on
             conn_box[0].close()
             return None
@@ -349,13 +367,19 @@ def _run_real(job) -> dict:
                             break
                         progressed = True
                 if not progressed and all(sched.blocked[i] or sched.state[i] == "done" for i in range(n)):
-                    raise common.Infra(f"all unfinished sessions are blocked: {sched.state}")
+                    # every unfinished session waits for a lock whose holder has finished: they would hang for ever
+                    return {"outs": "|".join(",".join(r) for r in results), "final": "", "trace": list(sched.trace), "locked": True,
+                            "deadlock": [i for i in range(n) if sched.state[i] != "done"]}
             for t in threads:
                 t.join(timeout=TURN_TIMEOUT)
             if errors:
                 raise common.Infra("; ".join(errors))
             # final state, read by the main thread on a fresh connection
-            fin = snowflake.connector.connect(database="db1", schema="s1")
+            try:
+                fin = snowflake.connector.connect(database="db1", schema="s1")
+            except _LockHang:
+                return {"outs": "|".join(",".join(r) for r in results), "final": "", "trace": list(sched.trace), "locked": True,
+                        "deadlock": ["a later connect() from the main thread"]}
             fc = fin.cursor()
             final = []
             for t in job["tables"]:
@@ -847,6 +871,11 @@ SCENARIOS = [
     # COMMENT ON / ALTER … SET COMMENT of one session must not leak into later statements of any session (shared AST residue)
     ("comments-then-noops", BASE + ",T1,T2", [["C1.1", "Z", "W2"], ["A2.2", "O2.5", "Z", "W2"]], [1, 2], TT),
     ("comments-cross", BASE + ",T1,T2", [["A1.3", "O1.7", "Z", "W1"], ["C2.4", "Z", "W1", "W2"]], [1, 2], TT),
+    # a connect that raises among concurrent connects: the others must not be affected (and must not wait for ever)
+    ("failing-connect-among-connects", "-", [["N!", "N1.1"], ["N1.1u"]], [], TT),
+    ("failing-connect-three", BASE + ",T0", [["N!"], ["N1.1", "I0.1.1"], ["N1.1m", "R0"]], [0], TT),
+    # session-level settings are per session: another session's connect(timezone=…) must not change what this one sees
+    ("timezone-of-another-session", BASE, [["N1.1", "H", "H"], ["Nz"]], [], TT),
     # session lifecycle: one session closes its connection while the others on the same database keep working
     ("close-while-others-work", BASE + ",T0", [["N1.1", "I0.5.5", "Q"], ["N1.1", "I0.1.1", "R0"]], [0], TT),
     ("close-while-others-work-dbpath", BASE + ",T0", [["N1.1", "I0.5.5", "Q"], ["N1.1", "I0.1.1", "R0"]], [0], TT),
@@ -888,10 +917,10 @@ def _jobs(chk) -> list[dict]:
             for p in pats:
                 if tuple(p) not in seen:
                     seen.add(tuple(p)); uniq.append(p)
-            if quick and len(uniq) > 64:
-                uniq = rnd.sample(uniq, 64)
+            if quick and len(uniq) > 40:
+                uniq = rnd.sample(uniq, 40)
         else:
-            uniq = list(_patterns3(rnd, n, 40 if quick else 400))
+            uniq = list(_patterns3(rnd, n, 30 if quick else 400))
         for p in uniq:
             jobs.append({"name": name, "init": init, "progs": progs, "tables": tables, "sched": p, "flags": flags})
     return jobs
@@ -922,7 +951,7 @@ def _line(job, trace, locked=True) -> str:
         out, k = [], 0
         for st in p:
             if st[0] == "N":
-                body = st[1:-1] if st[-1] in "ulm" and st != "N-" else st[1:]
+                body = "1.1" if st == "Nz" else st[1:-1] if st[-1] in "ulm" and st not in ("N-", "N!") else st[1:]
                 lock = eps[k] if k < len(eps) else "-"
                 k += 1
                 out.append(f"N{body}/{int(cd)}{int(cs)}/{lock}")
@@ -944,6 +973,11 @@ def _check(chk, job, real, rep) -> None:
     # the model did not get through its programs on the code's trace: the code no longer makes a *write* / lock step the
     # model has (read-only differences are absorbed by the alignment)
     steps_differ = rep.get("done") != "1"
+    if real.get("deadlock") is not None:
+        chk.violation(f"scenario {job['name']}: sessions {job['progs']} (initially {job['init']}) under the schedule of turns {real['trace']}: sessions "
+                      f"{real['deadlock']} hang for ever - each waits for a lock that no running session holds (results so far {real['outs']!r}); "
+                      f"in every one-at-a-time order all sessions finish", case, broken="C19 no statement hangs (lock not released)")
+        return
     robs = real["outs"] + "#" + real["final"]
     mobs = rep["impl"] + "#" + rep["final"]
     serial = rep.get("serial", "").split("~") if rep.get("serial") else []
